@@ -206,6 +206,47 @@ func c01Run(w *core.W) {
 			runSession(w, st, opt)
 		}
 	}
+	// F5: comparisons and their negations in every value position. Operands include NaN, infinities, -0.0 and the
+	// int/float boundary, so that `!(a < b)` is not `a >= b`, `a == a` is not always true and `a != b` is not `!(a < b | a > b)`.
+	w.Family("F5-comparison-negation")
+	{
+		vals := []T{I(1), I(2), F(1), F(1.5), Call("aton", S("NaN")), Call("aton", S("+Inf")), Call("aton", S("-Inf")),
+			Un("-", F(0)), I(0), S("ab"), L(F(1)), L(Call("aton", S("NaN"))), B(true), N("u"), N("gi"), Call("id", F(2))}
+		shapes := []func(c T) T{
+			func(c T) T { return c },
+			func(c T) T { return Un("!", c) },
+			func(c T) T { return Un("!", Un("!", c)) },
+		}
+		places := []func(e T) []T{
+			func(e T) []T { return []T{e} },
+			func(e T) []T { return []T{Asg("x", e), N("x")} },
+			func(e T) []T { return []T{Call("id", e)} },
+			func(e T) []T { return []T{L(e, e)} },
+			func(e T) []T { return []T{Bin("&", e, B(true))} },
+			func(e T) []T { return []T{Bin("|", B(false), e)} },
+			func(e T) []T { return []T{Bin("==", e, B(true))} },
+			func(e T) []T { return []T{IfE(e, I(1), I(2))} },
+			func(e T) []T {
+				return []T{Asg("n", I(0)), Wh(Bin("&", e, Bin("<", N("n"), I(2))), Asg("n", Bin("+", N("n"), I(1)))), N("n")}
+			},
+			func(e T) []T { return wrapFunc(e) },
+			func(e T) []T { return wrapFunc(Ret(e)) },
+			func(e T) []T { return wrapFunc(Asg("lb", e), L(N("lb"), Un("!", N("lb")))) },
+		}
+		for _, op := range []string{"<", "<=", ">", ">=", "==", "!="} {
+			for _, a := range vals {
+				for _, b := range vals {
+					for _, sh := range shapes {
+						for _, pl := range places {
+							if !emit(pl(sh(Bin(op, a, b)))) {
+								return
+							}
+						}
+					}
+				}
+			}
+		}
+	}
 	// F2: statement-position product
 	w.Family("F2-statement-position")
 	lv := 1
